@@ -204,7 +204,68 @@ def oracle(ctx, scale):
                 if got != want:
                     ctx.fail(f"select_window_degen(include_degen={incl}) splits or mis-selects a multiplet: "
                              f"got {got} expected {want}", case)
+    groups_oracle(ctx, scale)
     tab_oracle(ctx, scale)
+
+
+def groups_oracle(ctx, scale):
+    """the band groups the calculators actually use: Data_K.get_bands_in_range_groups_ik (window groups, plus - for
+    Fermi-sea calculators - the lumped block (0, bandmax) of fully occupied bands).  Property: the groups are
+    pairwise disjoint contiguous blocks, no block boundary falls inside a multiplet (gap <= thresh), every band below
+    the window is in exactly one group when sea=True.  The lower window edge is put inside / at / just outside
+    multiplets on purpose."""
+    from wannierberri.data_K.data_K import Data_K
+    rng = ctx.rng
+
+    class Stub:
+        pass
+    for it in range(ctx.n(200, 2000) * scale):
+        E, th = gen_energies(rng, nmax=10)
+        Ef = np.array([float(e) for e in E])
+        kr = rng.random() < 0.3 and len(E) % 2 == 0
+        sea = rng.random() < 0.7
+        emin = rng.choice(E) + rng.choice([Fr(0), th / 4, -th / 4, th / 2, -th / 2, Fr(-5)])
+        emax = rng.choice(E + [E[-1] + 1]) + rng.choice([Fr(0), th / 4, Fr(5)])
+        if emax < emin:
+            emin, emax = emax, emin
+        d = Stub()
+        d.E_K = Ef[None, :]
+        case = dict(E=Ef, th=float(th), kramers=kr, sea=sea, emin=float(emin), emax=float(emax))
+        with ctx.attempt("Data_K.get_bands_in_range_groups_ik", case):
+            g = Data_K.get_bands_in_range_groups_ik(d, 0, float(emin), float(emax), degen_thresh=float(th),
+                                                   degen_Kramers=kr, sea=sea)
+            blocks = sorted((int(a), int(b)) for a, b in g.keys())
+            cut = any(E[i] < emin <= E[i + 1] and E[i + 1] - E[i] <= th for i in range(len(E) - 1))
+            ctx.case(signature=("grp", tuple(E), th, kr, sea, emin, emax), nontrivial=cut)
+            ctx.count("oracle.groups.lower_edge_inside_multiplet" if cut else "oracle.groups.other")
+            n = len(E)
+            seen = [0] * n
+            msg = None
+            for a, b in blocks:
+                if not (0 <= a < b <= n):
+                    msg = f"block {(a, b)} out of range"
+                    break
+                for i in range(a, b):
+                    seen[i] += 1
+                if not kr:
+                    # a block boundary inside the band range must not cut a multiplet
+                    for x in (a, b):
+                        if 0 < x < n and E[x] - E[x - 1] <= th:
+                            msg = f"block boundary {x} of {(a, b)} falls inside a multiplet (gap {float(E[x] - E[x - 1])} <= thresh)"
+            if msg is None and max(seen) > 1:
+                msg = f"band {seen.index(max(seen))} belongs to {max(seen)} groups: {blocks}"
+            if msg is None and sea:
+                for i in range(n):
+                    if E[i] < emin and seen[i] != 1:
+                        msg = f"band {i} lies below the window but is in {seen[i]} groups (sea=True): {blocks}"
+                        break
+            if msg is None:
+                for i in range(n):
+                    if emin <= E[i] <= emax and seen[i] != 1:
+                        msg = f"band {i} lies inside the window but is in {seen[i]} groups: {blocks}"
+                        break
+            if msg:
+                ctx.fail("band groups used by the calculators: " + msg, dict(case, groups=blocks))
 
 
 def tab_oracle(ctx, scale):
